@@ -9,7 +9,7 @@ use std::collections::BinaryHeap;
 
 #[derive(Clone, Debug)]
 pub enum Ev {
-    /// corrupted: 0 intact, 1 checksum-detectable damage, 2 neutral/structural damage
+    /// corrupted: 0 intact, 1 checksum-detectable damage, 2 structurally impossible, 3 neutral damage
     Arrive { to: usize, frame: Vec<u8>, corrupted: u8, pkt: Option<Box<Packet>> },
     Deadline { node: usize, generation: u64 },
     App { node: usize },
@@ -258,7 +258,9 @@ impl World {
                     self.stats.inc(if class == 1 { "fault.corrupt-checksum-detectable" } else { "fault.corrupt-neutral-or-structural" });
                     let d = delay(t, self);
                     self.log(|| format!("link: corrupted (class {})", class));
-                    self.schedule(now + d, Ev::Arrive { to, frame: c, corrupted: class, pkt: None });
+                    // class 3 (damage in an unprotected, meaning-free field) is still the same packet
+                    let pk = if class == 3 { pkt } else { None };
+                    self.schedule(now + d, Ev::Arrive { to, frame: c, corrupted: class, pkt: pk });
                     return;
                 }
             }
@@ -312,9 +314,9 @@ impl World {
 /// Damage a frame with 1 or 2 bit flips such that the damage is provably harmless to deliver:
 /// class 1: the structure is intact and a checksum the receiver verifies provably fails
 ///          (C08 clause 3 applies: the frame must be equivalent to no frame);
-/// class 2: structurally impossible lengths (any receiver must reject), or the result decodes to
-///          the same content (damage in a field no checksum protects and that does not change
-///          meaning).
+/// class 2: structurally impossible lengths (any receiver must reject);
+/// class 3: the result decodes to the same content (damage in a field no checksum protects and
+///          that does not change meaning).
 /// Otherwise None (the fate degrades to Drop): the Internet checksum cannot detect everything.
 pub fn corrupt(frame: &[u8], medium: Medium, t: &mut Tape) -> Option<(Vec<u8>, u8)> {
     if medium == Medium::Ieee802154 {
@@ -341,24 +343,15 @@ pub fn corrupt(frame: &[u8], medium: Medium, t: &mut Tape) -> Option<(Vec<u8>, u
     if c == frame {
         return None;
     }
+    let ob = orig.ip.as_ref().unwrap();
     match lenient_decode(medium, &c) {
         Err(LenientErr::Checksum) => Some((c, 1)),
         Err(LenientErr::Structure) => Some((c, 2)),
-        Ok(p) => {
-            // decodes and verifies: only admissible if semantically identical
-            let same = match (&p.ip, &orig.ip) {
-                (Some(a), Some(b)) => {
-                    a.src == b.src
-                        && a.dst == b.dst
-                        && a.proto == b.proto
-                        && a.payload == b.payload
-                        && a.hbh == b.hbh
-                        && a.v4.as_ref().map(|v| (v.ident, v.df, v.mf, v.frag_off, v.ihl)) == b.v4.as_ref().map(|v| (v.ident, v.df, v.mf, v.frag_off, v.ihl))
-                }
-                _ => false,
-            };
-            if same && p.ip.as_ref().map(|i| i.hop > 1).unwrap_or(false) {
-                Some((c, 2))
+        Ok(l) => {
+            // decodes and every checksum verifies: only admissible if semantically identical
+            let same = l.src == ob.src && l.dst == ob.dst && l.proto == ob.proto && l.payload == ob.payload && !l.fragment && l.hop > 1 && l.hdr == masked_hdr(ob.v4.is_some(), &frame[l2..l2 + ob.hdr_len.min(frame.len() - l2)]);
+            if same {
+                Some((c, 3))
             } else {
                 None
             }
@@ -366,14 +359,52 @@ pub fn corrupt(frame: &[u8], medium: Medium, t: &mut Tape) -> Option<(Vec<u8>, u
     }
 }
 
+/// Header bytes whose value does not change the meaning of the packet for a receiver are zeroed:
+/// IPv4 TOS, TTL and the header checksum (re-verified separately); IPv6 traffic class, flow
+/// label and hop limit.
+fn masked_hdr(v4: bool, h: &[u8]) -> Vec<u8> {
+    let mut hdr = h.to_vec();
+    if v4 {
+        for k in [1usize, 8, 10, 11] {
+            if k < hdr.len() {
+                hdr[k] = 0;
+            }
+        }
+    } else {
+        for k in [1usize, 2, 3, 7] {
+            if k < hdr.len() {
+                hdr[k] = 0;
+            }
+        }
+        if !hdr.is_empty() {
+            hdr[0] &= 0xf0;
+        }
+    }
+    hdr
+}
+
+pub struct Lenient {
+    pub src: codec::IpAddr,
+    pub dst: codec::IpAddr,
+    pub proto: u8,
+    pub hop: u8,
+    pub fragment: bool,
+    /// header bytes with the meaning-free ones zeroed
+    pub hdr: Vec<u8>,
+    pub payload: Vec<u8>,
+}
+
 pub enum LenientErr {
     Checksum,
     Structure,
 }
 
-/// Decode accepting everything a receiver could conceivably accept: only checksum failures and
-/// structurally impossible lengths are errors. UDP/IPv4 zero checksum counts as "verifies".
-pub fn lenient_decode(medium: Medium, b: &[u8]) -> Result<Packet, LenientErr> {
+/// Decode accepting everything a receiver could conceivably accept: the only errors are a
+/// checksum that provably fails and structurally impossible lengths (which any receiver must
+/// reject because honouring them would read outside the buffer). No policy checks: a frame this
+/// function accepts might be accepted by the stack, so it is only delivered when its content is
+/// identical to the original.
+pub fn lenient_decode(medium: Medium, b: &[u8]) -> Result<Lenient, LenientErr> {
     use LenientErr::*;
     let ipb = match medium {
         Medium::Ethernet => {
@@ -384,7 +415,7 @@ pub fn lenient_decode(medium: Medium, b: &[u8]) -> Result<Packet, LenientErr> {
             if et != codec::ETH_IPV4 && et != codec::ETH_IPV6 {
                 return Err(Structure);
             }
-            if (et == codec::ETH_IPV4) != (b.len() > 14 && b[14] >> 4 == 4) {
+            if b.len() == 14 || (et == codec::ETH_IPV4) != (b[14] >> 4 == 4) || (et == codec::ETH_IPV6) != (b[14] >> 4 == 6) {
                 return Err(Structure);
             }
             &b[14..]
@@ -395,7 +426,7 @@ pub fn lenient_decode(medium: Medium, b: &[u8]) -> Result<Packet, LenientErr> {
         return Err(Structure);
     }
     let ver = ipb[0] >> 4;
-    let ip = match ver {
+    let l = match ver {
         4 => {
             if ipb.len() < 20 {
                 return Err(Structure);
@@ -408,19 +439,78 @@ pub fn lenient_decode(medium: Medium, b: &[u8]) -> Result<Packet, LenientErr> {
             if !codec::verifies(&ipb[..ihl], 0) {
                 return Err(Checksum);
             }
-            // header verifies: remaining policy rejections of the strict decoder count as
-            // structural (the transport segment is untouched or judged below)
-            match codec::decode_ipv4(ipb, &Verify::none(), false) {
-                Ok(ip) => ip,
-                Err(_) => return Err(Structure),
-            }
+            let fl = ((ipb[6] as u16) << 8) | ipb[7] as u16;
+            let mut src = [0; 4];
+            src.copy_from_slice(&ipb[12..16]);
+            let mut dst = [0; 4];
+            dst.copy_from_slice(&ipb[16..20]);
+            let hdr = masked_hdr(true, &ipb[..ihl]);
+            Lenient { src: codec::IpAddr::V4(src), dst: codec::IpAddr::V4(dst), proto: ipb[9], hop: ipb[8], fragment: fl & 0x3fff != 0, hdr, payload: ipb[ihl..tl].to_vec() }
         }
-        6 => codec::decode_ipv6(ipb, false).map_err(|_| Structure)?,
+        6 => {
+            let ip = codec::decode_ipv6(ipb, false).map_err(|_| Structure)?;
+            let hdr = masked_hdr(false, &ipb[..ip.hdr_len]);
+            Lenient { src: ip.src, dst: ip.dst, proto: ip.proto, hop: ip.hop, fragment: false, hdr, payload: ip.payload }
+        }
         _ => return Err(Structure),
     };
-    if ip.is_fragment() {
-        return Ok(Packet { eth: None, arp: None, ip: Some(ip), l4: Some(codec::L4::Fragment) });
+    if l.fragment {
+        return Ok(l);
     }
-    let l4 = codec::decode_l4x(&ip, &Verify::all(), false).map_err(|e| if e.kind == codec::ErrKind::Checksum { Checksum } else { Structure })?;
-    Ok(Packet { eth: None, arp: None, ip: Some(ip), l4: Some(l4) })
+    let p = &l.payload;
+    match l.proto {
+        codec::P_TCP => {
+            if p.len() < 20 {
+                return Err(Structure);
+            }
+            let doff = (p[12] >> 4) as usize * 4;
+            if doff < 20 || doff > p.len() {
+                return Err(Structure);
+            }
+            if !codec::verifies(p, codec::pseudo(&l.src, &l.dst, codec::P_TCP, p.len())) {
+                return Err(Checksum);
+            }
+        }
+        codec::P_UDP => {
+            if p.len() < 8 {
+                return Err(Structure);
+            }
+            let ul = ((p[4] as usize) << 8) | p[5] as usize;
+            if ul < 8 || ul > p.len() {
+                return Err(Structure);
+            }
+            let c = ((p[6] as u16) << 8) | p[7] as u16;
+            if c == 0 {
+                if !l.src.is_v4() {
+                    return Err(Checksum);
+                }
+            } else if !codec::verifies(&p[..ul], codec::pseudo(&l.src, &l.dst, codec::P_UDP, ul)) {
+                return Err(Checksum);
+            }
+            if ul != p.len() {
+                // trailing bytes ignored by a receiver: content differs from the original
+                let mut l2 = l;
+                l2.payload.truncate(ul);
+                return Ok(l2);
+            }
+        }
+        codec::P_ICMP if l.src.is_v4() => {
+            if p.len() < 4 {
+                return Err(Structure);
+            }
+            if !codec::verifies(p, 0) {
+                return Err(Checksum);
+            }
+        }
+        codec::P_ICMP6 if !l.src.is_v4() => {
+            if p.len() < 4 {
+                return Err(Structure);
+            }
+            if !codec::verifies(p, codec::pseudo(&l.src, &l.dst, codec::P_ICMP6, p.len())) {
+                return Err(Checksum);
+            }
+        }
+        _ => {}
+    }
+    Ok(l)
 }
